@@ -66,7 +66,7 @@ def build_lib_harness():
 # one invocation
 # ----------------------------------------------------------------------------------------------
 
-RUNROOT = os.path.join(common.BUILD, "c20run")
+RUNROOT = os.path.join(common.BUILD, "c20run", str(os.getpid()))     # private to this process
 
 
 def snapshot(root):
@@ -88,7 +88,7 @@ def snapshot(root):
 def run_case(exes, case, idx):
     """case: dict(tool, fl, argv0 (bytes), args [bytes], files {name: bytes}, dirs [name], ro [name],
     stdin: bytes | 'DIR').  Returns observation dict."""
-    wd = os.path.join(RUNROOT, "%d-%d" % (os.getpid(), idx))
+    wd = os.path.join(RUNROOT, "%d" % idx)
     shutil.rmtree(wd, ignore_errors=True)
     os.makedirs(wd)
     try:
